@@ -193,6 +193,85 @@ theorem gram_route_eigen (m N : ℕ) (w : ℕ → F) (Xc V : ℕ → ℕ → F) 
   unfold gramEigval
   ring
 
+/-- **Duality of the two methods** (`Xᵀ X` vs `X Xᵀ` under the quadrature weights).  If `v` is an
+eigenvector of the (noise-free) Gram matrix, `G v = l v`, then `u_j = s_j Σ_i Xc_ij v_i` is an eigenvector
+of the matrix `S C S` the covariance route decomposes, for the eigenvalue `l/(N−1)`: every Gram-route
+pair is a covariance-route pair, with `λ_cov = l/(N−1) = λ_gram · N/(N−1)` (`λ_gram = l/N`), and the
+back-transformed eigenfunction `u/s = Xcᵀ v` is the Gram-route eigenfunction up to the factor `√l`. -/
+theorem duality_gram_to_cov (m N : ℕ) (s w : ℕ → F) (Xc : ℕ → ℕ → F) (v : ℕ → F) (l : F)
+    (hs : ∀ j < m, s j * s j = w j)
+    (hv : ∀ i < N, ∑ i' ∈ range N, gramW m w Xc i i' * v i' = l * v i) :
+    ∀ j < m, ∑ j' ∈ range m, symMat s (covMat N Xc) j j' * (s j' * ∑ i ∈ range N, Xc i j' * v i)
+      = l / ((N : F) - 1) * (s j * ∑ i ∈ range N, Xc i j * v i) := by
+  intro j _
+  -- Σ_j' w_j' Xc_aj' (Σ_i Xc_ij' v_i) = Σ_i G_ai v_i = l v_a
+  have hG : ∀ a < N, ∑ j' ∈ range m, w j' * (Xc a j' * ∑ i ∈ range N, Xc i j' * v i) = l * v a := by
+    intro a ha
+    rw [← hv a ha]
+    unfold gramW innerWF
+    simp_rw [Finset.mul_sum, Finset.sum_mul]
+    rw [Finset.sum_comm]
+    apply Finset.sum_congr rfl; intro i _
+    apply Finset.sum_congr rfl; intro j' _
+    ring
+  calc ∑ j' ∈ range m, symMat s (covMat N Xc) j j' * (s j' * ∑ i ∈ range N, Xc i j' * v i)
+      = ∑ j' ∈ range m, ∑ a ∈ range N, s j / ((N : F) - 1) * (Xc a j * (w j' * (Xc a j' * ∑ i ∈ range N, Xc i j' * v i))) := by
+        apply Finset.sum_congr rfl; intro j' hj'
+        unfold symMat covMat
+        rw [← hs j' (mem_range.1 hj'), Finset.sum_div, Finset.mul_sum, Finset.sum_mul, Finset.sum_mul]
+        apply Finset.sum_congr rfl; intro a _
+        ring
+    _ = ∑ a ∈ range N, s j / ((N : F) - 1) * (Xc a j * ∑ j' ∈ range m, w j' * (Xc a j' * ∑ i ∈ range N, Xc i j' * v i)) := by
+        rw [Finset.sum_comm]
+        apply Finset.sum_congr rfl; intro a _
+        rw [Finset.mul_sum, Finset.mul_sum]
+    _ = ∑ a ∈ range N, s j / ((N : F) - 1) * (Xc a j * (l * v a)) := by
+        apply Finset.sum_congr rfl; intro a ha
+        rw [hG a (mem_range.1 ha)]
+    _ = l / ((N : F) - 1) * (s j * ∑ i ∈ range N, Xc i j * v i) := by
+        rw [Finset.mul_sum, Finset.mul_sum]
+        apply Finset.sum_congr rfl; intro a _
+        ring
+
+/-- The converse direction: a covariance-route pair `(λ, u)` of `S C S` gives the Gram-matrix pair
+`((N−1) λ, v)` with `v_i = Σ_j Xc_ij s_j u_j` (the un-normalised scores of curve `i`). -/
+theorem duality_cov_to_gram (m N : ℕ) (s w : ℕ → F) (Xc : ℕ → ℕ → F) (u : ℕ → F) (lam : F)
+    (hN : (N : F) - 1 ≠ 0) (hs : ∀ j < m, s j * s j = w j)
+    (hu : ∀ j < m, ∑ j' ∈ range m, symMat s (covMat N Xc) j j' * u j' = lam * u j) :
+    ∀ i < N, ∑ i' ∈ range N, gramW m w Xc i i' * (∑ j ∈ range m, Xc i' j * (s j * u j))
+      = ((N : F) - 1) * lam * ∑ j ∈ range m, Xc i j * (s j * u j) := by
+  intro i _
+  -- (N−1) Σ_j' A_jj' u_j' = s_j Σ_a Xc_aj Σ_j' Xc_aj' s_j' u_j'
+  have hA : ∀ j < m, s j * ∑ a ∈ range N, Xc a j * ∑ j' ∈ range m, Xc a j' * (s j' * u j')
+      = ((N : F) - 1) * (lam * u j) := by
+    intro j hj
+    rw [← hu j hj]
+    unfold symMat covMat
+    rw [Finset.mul_sum, Finset.mul_sum]
+    simp_rw [Finset.mul_sum]
+    rw [Finset.sum_comm]
+    apply Finset.sum_congr rfl; intro j' _
+    rw [Finset.sum_div, Finset.mul_sum, Finset.sum_mul, Finset.sum_mul, Finset.mul_sum]
+    apply Finset.sum_congr rfl; intro a _
+    field_simp
+  calc ∑ i' ∈ range N, gramW m w Xc i i' * (∑ j ∈ range m, Xc i' j * (s j * u j))
+      = ∑ j ∈ range m, Xc i j * (s j * (s j * ∑ a ∈ range N, Xc a j * ∑ j' ∈ range m, Xc a j' * (s j' * u j'))) := by
+        unfold gramW innerWF
+        simp_rw [Finset.sum_mul, Finset.mul_sum]
+        rw [Finset.sum_comm]
+        apply Finset.sum_congr rfl; intro j hj
+        apply Finset.sum_congr rfl; intro a _
+        rw [← hs j (mem_range.1 hj)]
+        apply Finset.sum_congr rfl; intro j' _
+        ring
+    _ = ∑ j ∈ range m, Xc i j * (s j * (((N : F) - 1) * (lam * u j))) := by
+        apply Finset.sum_congr rfl; intro j hj
+        rw [hA j (mem_range.1 hj)]
+    _ = ((N : F) - 1) * lam * ∑ j ∈ range m, Xc i j * (s j * u j) := by
+        rw [Finset.mul_sum]
+        apply Finset.sum_congr rfl; intro j _
+        ring
+
 /-- Why `n_components = None` always fails on the Gram route: for column-centred
 curves the constant vector is an eigenvector of `G − σ²I` for the eigenvalue `−σ² ≤ 0`;
 the code clips it to `0` and divides by `√0` (open finding `C02-gram-nonpositive-eigenvalue`). -/
@@ -376,6 +455,17 @@ theorem sqrt_bracket (q : ℚ) (hq : 0 ≤ q) :
     0 ≤ sqrtQ q ∧ sqrtQ q ^ 2 ≤ q ∧ q < (sqrtQ q + 1 / (10 ^ 24 : ℕ)) ^ 2 :=
   FDA.sqrtLo_bracket 24 q hq
 
+/-- `mercer_truncated_psd` over `ℝ` with the explicit square roots `s = √w` (`w_j > 0`, `weights_pos`):
+no hypothesis on the roots is left. -/
+theorem mercer_truncated_psd_real (m K : ℕ) (hK : K ≤ m) (w : ℕ → ℝ) (hw : ∀ j < m, 0 < w j)
+    (C U : ℕ → ℕ → ℝ) (lam : ℕ → ℝ)
+    (hrows : ∀ a < m, ∀ b < m, ∑ j ∈ range m, U a j * U b j = if a = b then 1 else 0)
+    (heig : ∀ k < m, ∀ i < m, ∑ j ∈ range m, symMat (fun j => Real.sqrt (w j)) C i j * U k j = lam k * U k i)
+    (hlam : ∀ k, K ≤ k → k < m → 0 ≤ lam k) (x : ℕ → ℝ) :
+    0 ≤ ∑ i ∈ range m, ∑ j ∈ range m,
+      x i * (C i j - mercer K lam (backTransform (fun j => Real.sqrt (w j)) U) i j) * x j :=
+  mercer_truncated_psd m K hK _ C U lam (fun j hj => (Real.sqrt_pos.2 (hw j hj)).ne') hrows heig hlam x
+
 /-! ### Non-vacuity -/
 
 /-- A concrete eigen-system meeting every hypothesis of `orthonormal_w`, `eigen_equation`,
@@ -415,6 +505,16 @@ example :
   intro Xc V i hi
   obtain rfl | rfl : i = 0 ∨ i = 1 := by omega
   all_goals simp [Finset.sum_range_succ, gramShift, gramW, innerWF, Xc, V]
+  all_goals norm_num
+
+/-- `duality_gram_to_cov`: the Gram eigen-hypothesis on the same instance (`σ² = 0`, eigenvalue 50). -/
+example :
+    let Xc : ℕ → ℕ → ℚ := fun i j => (if i = 0 then 1 else -1) * (if j = 0 then 3 else if j = 1 then 4 else 0)
+    let v : ℕ → ℚ := fun i => if i = 0 then 1 else -1
+    ∀ i < 2, ∑ i' ∈ range 2, gramW 3 (fun _ => (1 : ℚ)) Xc i i' * v i' = 50 * v i := by
+  intro Xc v i hi
+  obtain rfl | rfl : i = 0 ∨ i = 1 := by omega
+  all_goals simp [Finset.sum_range_succ, gramW, innerWF, Xc, v]
   all_goals norm_num
 
 end C02
